@@ -13,6 +13,9 @@ import (
 type Lit struct {
 	V   ssa.Value
 	Pos bool
+	// Nil marks a synthetic literal "V == nil" (Pos) / "V != nil" (!Pos),
+	// implied by a helper returning V as its error result.
+	Nil bool
 }
 
 // FactInfo holds, for every basic block of a function, the set of literals
@@ -47,7 +50,7 @@ func (p *Prog) Facts(fn *ssa.Function) *FactInfo {
 		if n := len(b.Instrs); n > 0 {
 			if iff, ok := b.Instrs[n-1].(*ssa.If); ok {
 				v, pos := stripNot(iff.Cond, true)
-				for _, l := range []Lit{{v, pos}, {v, !pos}} {
+				for _, l := range []Lit{{V: v, Pos: pos}, {V: v, Pos: !pos}} {
 					if _, ok := fi.index[l]; !ok {
 						fi.index[l] = len(fi.lits)
 						fi.lits = append(fi.lits, l)
@@ -101,9 +104,9 @@ func (p *Prog) Facts(fn *ssa.Function) *FactInfo {
 					if iff, ok := pr.Instrs[n-1].(*ssa.If); ok && len(pr.Succs) == 2 && pr.Succs[0] != pr.Succs[1] {
 						v, pos := stripNot(iff.Cond, true)
 						if pr.Succs[0] == b {
-							out[fi.index[Lit{v, pos}]] = true
+							out[fi.index[Lit{V: v, Pos: pos}]] = true
 						} else if pr.Succs[1] == b {
-							out[fi.index[Lit{v, !pos}]] = true
+							out[fi.index[Lit{V: v, Pos: !pos}]] = true
 						}
 					}
 				}
@@ -183,6 +186,9 @@ func strConst(v ssa.Value) (string, bool) {
 // nilTest decodes a literal of the form (x == nil) / (x != nil): returns the
 // tested value and whether the literal asserts that it IS nil.
 func nilTest(l Lit) (ssa.Value, bool, bool) {
+	if l.Nil {
+		return l.V, l.Pos, true
+	}
 	b, ok := l.V.(*ssa.BinOp)
 	if !ok || (b.Op != token.EQL && b.Op != token.NEQ) {
 		return nil, false, false
@@ -440,6 +446,22 @@ func storedThrough(base ssa.Value) []*ssa.Store {
 	}
 	walk(base)
 	return res
+}
+
+// isParamOfType: x is a function parameter (or captured variable) whose
+// (pointer-stripped) named type is called name.
+func isParamOfType(x ssa.Value, name string) bool {
+	switch x.(type) {
+	case *ssa.Parameter, *ssa.FreeVar:
+	default:
+		return false
+	}
+	n := namedOf(x.Type())
+	return n != nil && n.Obj().Name() == name
+}
+
+func depOnParamType(v ssa.Value, name string) bool {
+	return dependsOn(v, func(x ssa.Value) bool { return isParamOfType(x, name) })
 }
 
 // dominates reports whether instruction a dominates instruction b (same function).
